@@ -47,6 +47,29 @@ func findLeadingZeroChild(seed []byte, z int, limit int) (uint32, bool) {
 	return 0, false
 }
 
+// findLeadingZeroPubChild: a non-hardened index whose child PUBLIC key has an X coordinate starting with a zero
+// byte (about 1 in 256); found through the private derivation so that the public one is what gets examined.
+func findLeadingZeroPubChild(seed []byte, limit int) (uint32, bool) {
+	m, err := hdkeychain.NewMaster(seed, nets[0])
+	if err != nil {
+		return 0, false
+	}
+	for i := 0; i < limit; i++ {
+		c, err := m.Child(uint32(i))
+		if err != nil {
+			continue
+		}
+		pk, err := c.ECPubKey()
+		if err != nil {
+			continue
+		}
+		if pk.SerializeCompressed()[1] == 0 {
+			return uint32(i), true
+		}
+	}
+	return 0, false
+}
+
 func runC04(c *Ctx) {
 	c.Conc = true // stateless calls are also replayed from several goroutines at once
 	r := c.Rng
@@ -122,6 +145,17 @@ func runC04(c *Ctx) {
 			Event{"op": "Child", "src": 12, "dst": 14, "idx": w32(5)}, Event{"op": "Child", "src": 13, "dst": 15, "idx": w32(1<<31 + 1)})
 		c.Run(calls)
 	}
+	// public children whose X coordinate starts with a zero byte, derived from the neutered parent, and below them
+	for k := 0; k < c.Pick(2, 10); k++ {
+		seed := randBytes(r, 32)
+		ix, ok := findLeadingZeroPubChild(seed, 4000)
+		if !ok {
+			continue
+		}
+		c.Run([]Event{hdCfg(), {"op": "NewMaster", "dst": 1, "seed": ints(seed), "net": 1 + k%len(nets)}, {"op": "Neuter", "src": 1, "dst": 2},
+			{"op": "Child", "src": 2, "dst": 3, "idx": w32(ix)}, {"op": "Child", "src": 1, "dst": 4, "idx": w32(ix)}, {"op": "Neuter", "src": 4, "dst": 5},
+			{"op": "Child", "src": 3, "dst": 6, "idx": w32(0)}, {"op": "Reparse", "src": 3, "dst": 7}, {"op": "Child", "src": 7, "dst": 8, "idx": w32(1)}})
+	}
 	// derivation is a function of the key's VALUE: it is not disturbed by what happened to the object or to its
 	// relatives before (printed, moved to another network, re-imported, a child or sibling erased)
 	for k := 0; k < c.Pick(24, 240); k++ {
@@ -194,6 +228,18 @@ func runC05(c *Ctx) {
 		ch, _ := m.Child(chIdx)
 		pub, _ := ch.Neuter()
 		pc, _ := pub.Child(uint32(k))
+		if k%2 == 1 { // a public child whose X coordinate starts with a zero byte
+			seedZ := randBytes(r, 32)
+			if ix, ok := findLeadingZeroPubChild(seedZ, 4000); ok {
+				if mz, err := hdkeychain.NewMaster(seedZ, nets[k%len(nets)]); err == nil {
+					if nz, err := mz.Neuter(); err == nil {
+						if cz, err := nz.Child(ix); err == nil {
+							pc = cz
+						}
+					}
+				}
+			}
+		}
 		for bi, base := range []*hdkeychain.ExtendedKey{m, ch, pub, pc} {
 			s := base.String()
 			calls := []Event{hdCfg(), {"op": "Parse", "dst": 1, "s": str(s)},
@@ -244,6 +290,9 @@ func runC05(c *Ctx) {
 				pos := r.Intn(len(s))
 				parse(s[:pos] + string(rune(int(s[pos])+0x100*(1+t%3))) + s[pos+1:])
 			}
+			for _, w := range wsWraps(s)[:8] {
+				parse(w)
+			}
 			parse(string(rune(int(s[0])+0x100)) + s[1:])
 			parse(s[:len(s)-1] + string(rune(int(s[len(s)-1])+0x100)))
 			// scalars at the range boundaries / public key bytes
@@ -268,6 +317,21 @@ func runC05(c *Ctx) {
 				q[45] = par
 				parse(b58WithChecksum(q))
 				copy(q[46:], randBytes(r, 32)) // mostly off-curve / other point
+				parse(b58WithChecksum(q))
+			}
+			// public key X coordinates outside the field: p + x0 for small x0 (some are abscissas of curve points
+			// once reduced), p itself, p - 1, 2^256 - 1
+			fieldP, _ := new(big.Int).SetString("fffffffffffffffffffffffffffffffffffffffffffffffffffffffefffffc2f", 16)
+			for x0 := int64(-1); x0 <= 12; x0++ {
+				q := append([]byte{}, p...)
+				q[45] = 2 + byte(x0&1)
+				new(big.Int).Add(fieldP, big.NewInt(x0)).FillBytes(q[46:78])
+				parse(b58WithChecksum(q))
+			}
+			{
+				q := append([]byte{}, p...)
+				q[45] = 2
+				copy(q[46:], bytes.Repeat([]byte{0xff}, 32))
 				parse(b58WithChecksum(q))
 			}
 			// wrong lengths with a valid checksum, leading zero byte variants
@@ -360,6 +424,25 @@ func runC06(c *Ctx) {
 			body := append([]byte{id}, kb...)
 			c.Call(Event{"op": "WifDecode", "s": str(b58WithChecksum(body))})
 			c.Call(Event{"op": "WifDecode", "s": str(b58WithChecksum(append(body, 1)))})
+		}
+	}
+	// white space around a valid string
+	for k := 0; k < 4; k++ {
+		e := Do(nil, Event{"op": "Wif", "key": ints(scalars[(k*5)%len(scalars)]), "net": 1 + k%len(nets), "compressed": k%2 == 0})
+		for _, w := range wsWraps(gStr(e, "str")) {
+			c.Call(Event{"op": "WifDecode", "s": str(w)})
+		}
+	}
+	// keys whose public point has an X coordinate with a leading zero byte (planner search over small scalars)
+	found := 0
+	for v := int64(1); v < 20000 && found < c.Pick(3, 12); v++ {
+		kb := make([]byte, 32)
+		big.NewInt(v).FillBytes(kb)
+		if pub := ecBase(kb); len(pub) == 33 && pub[1] == 0 {
+			found++
+			for _, comp := range []bool{true, false} {
+				c.Call(Event{"op": "Wif", "key": ints(kb), "net": 1 + found%len(nets), "compressed": comp})
+			}
 		}
 	}
 	// the flag of a WIF value changed after it was encoded / decoded
